@@ -24,7 +24,10 @@ META = dict(
                'strictly larger than the free capacity (no lost wake-up); with weights <= capacity nobody waits when no one holds. '
                'The model is tied to the source by running the real class (via its context manager, real asyncio tasks and Events) '
                'and the model on the same schedules and comparing value, queue (ids and weights, in order), holders and body-entry order '
-               'after every settle: exhaustive small scope plus seeded random schedules.',
+               'after every settle: exhaustive small scope plus seeded random schedules plus LARGE-POPULATION schedules (bursts of 1..300 '
+               '(thorough 1000) simultaneous waiters behind a holder around every power of two, unit/whole-machine/half-machine weights, and '
+               'random mixed-weight acquire/release crowds held at 65..300 simultaneous waiters, each drained to the end), so that any bound '
+               'on the number of waiters, or behaviour that only appears with long queues, shows up in the tie and in the oracle.',
     level_note='The theorems are about the hand model; the tie to batch/batch/semaphore.py is the correspondence run (sampled), not a '
                'translation. Cancellation of waiters is outside the property (its quantifier is acquire/release interleavings) and is '
                'not modelled. Trusted: Coq kernel, CPython asyncio, harness/aio/detloop.py, harness/impl/c16_fifo.py.',
@@ -147,6 +150,90 @@ def random_schedule(rng, cap, n):
     return {'cap': cap, 'acts': acts}
 
 
+# Large populations: the worker's semaphore has no bound on the number of waiters (a 16-core worker that is fully
+# occupied keeps receiving jobs), so the schedules must not stop at a handful of jobs.  These are few but long; the
+# model side gets them as one numeral (decode) and only fingerprints are compared.
+
+_W_CORES = [250, 250, 250, 250, 500, 500, 1000, 2000, 4000, 8000, 16000]
+
+
+def _drain(ref, acts, rng, group):
+    """Release every holder (in groups of `group`, or random group sizes when group is None) until nobody holds or
+    nobody can be admitted any more; Settle after each group."""
+    ref.do(['s'])
+    acts.append(['s'])
+    guard = 0
+    while ref.holding and guard < 5000:
+        guard += 1
+        k = group if group is not None else rng.choice([1, 1, 2, 3, 8, 64])
+        ids = [i for i, _ in ref.holding]
+        if group is None:
+            rng.shuffle(ids)
+        for i in ids[:k]:
+            a = ['r', i]
+            ref.do(a)
+            acts.append(a)
+        ref.do(['s'])
+        acts.append(['s'])
+
+
+def burst_schedule(n, cap, w_hold, w, group):
+    """A job of weight w_hold occupies the semaphore; n jobs of weight w arrive behind it while it runs (so that n of
+    them wait at the same time when w_hold + w > cap); then everybody is released, `group` holders at a time."""
+    ref, acts = _Ref(cap), []
+    for a in [['a', w_hold], ['s']] + [['a', w]] * n:
+        ref.do(a)
+        acts.append(a)
+    _drain(ref, acts, None, group)
+    return {'cap': cap, 'acts': acts}
+
+
+def crowd_schedule(rng, target):
+    """Mixed weights, mixed acquire/release: arrivals dominate until `target` jobs wait simultaneously, then a long
+    balanced phase of arrivals and departures at that population, then everything drains."""
+    cap = rng.choice([16000, 16000, 8000, 4000, 1000])
+    ws = [w for w in _W_CORES if w <= cap]
+    ref, acts = _Ref(cap), []
+
+    def do(a):
+        ref.do(a)
+        acts.append(a)
+        if a[0] != 's' and rng.random() < 0.08:
+            do(['s'])
+
+    guard = 0
+    while len(ref.queue) < target and guard < 20 * target:
+        guard += 1
+        if rng.random() < 0.9 or not ref.holding:
+            do(['a', rng.choice(ws)])
+        else:
+            do(['r', rng.choice(ref.holding)[0]])
+    for _ in range(rng.choice([40, 120])):
+        if rng.random() < 0.5 or not ref.holding:
+            do(['a', rng.choice(ws)])
+        else:
+            do(['r', rng.choice(ref.holding)[0]])
+    _drain(ref, acts, rng, None)
+    return {'cap': cap, 'acts': acts}
+
+
+def large_schedules(ctx):
+    out = []
+    # quarter-core jobs behind a whole-machine job on a 16-core worker, around every power of two up to 300 waiters
+    for n in ctx.scale([1, 31, 32, 33, 63, 64, 65, 66, 100, 127, 128, 129, 200, 255, 256, 257, 300],
+                       [1, 15, 16, 17, 31, 32, 33, 63, 64, 65, 66, 100, 127, 128, 129, 200, 255, 256, 257, 300, 511, 512, 513, 1000]):
+        out.append(('large-burst', burst_schedule(n, 16000, 16000, 250, 64)))
+    # unit semaphore: each release admits exactly the next waiter
+    for n in ctx.scale([65, 130], [65, 130, 260, 520]):
+        out.append(('large-burst', burst_schedule(n, 1, 1, 1, 1)))
+    # whole-machine jobs only; half-machine jobs released two at a time
+    out.append(('large-burst', burst_schedule(ctx.scale(70, 300), 16000, 16000, 16000, 1)))
+    out.append(('large-burst', burst_schedule(ctx.scale(150, 400), 16000, 8000, 8000, 2)))
+    for k in range(ctx.scale(16, 80)):
+        out.append(('large-mixed', crowd_schedule(ctx.rng, ctx.rng.choice([65, 70, 100, 130, 200, 300]))))
+    return out
+
+
 def corpus_schedules():
     import glob, json, os
     extra = []
@@ -167,7 +254,7 @@ def corpus_schedules():
 
 
 def all_schedules(ctx):
-    """[(class, schedule)] — deterministic order: corpus, exhaustive settled, exhaustive burst, random."""
+    """[(class, schedule)] — deterministic order: corpus, exhaustive settled, exhaustive burst, random, large populations."""
     out = [('corpus', s) for s in corpus_schedules()]
     L = ctx.scale(7, 9)
     out += [('settled', {'cap': 3, 'acts': a}) for a in enum_settled(3, [1, 2, 3], ctx.scale(4, 5), L)]
@@ -177,6 +264,7 @@ def all_schedules(ctx):
     for k in range(nrand):
         cap = ctx.rng.choice([1, 2, 3, 4, 5, 8, 16, 1000, 8000])
         out.append(('random', random_schedule(ctx.rng, cap, ctx.rng.choice([10, 30, 60, 200 if k % 10 == 0 else 40]))))
+    out += large_schedules(ctx)
     return out
 
 
@@ -195,8 +283,10 @@ def coq_actions(acts):
 
 
 def model_traces(ctx, schedules):
-    exprs = [f'trace (init {zlit(s["cap"])}) {coq_actions(s["acts"])}' for s in schedules]
-    vals = coq_eval(ctx, HEADER, exprs, shard=100)
+    # short schedules as readable action lists; long ones through decode (a list literal costs milliseconds per action)
+    exprs = [f'trace (init {zlit(s["cap"])}) ' + (coq_actions(s["acts"]) if len(s["acts"]) <= 60 else f'(decode {len(s["acts"])} {hex(encode(s["acts"]))})')
+             for s in schedules]
+    vals = coq_eval(ctx, HEADER, exprs, shard=100 if sum(len(s["acts"]) for s in schedules) <= 2000 else 4)
     return [[[v, [list(e) for e in q], sorted(h), list(g)] for (v, q, h, g) in tr] for tr in vals]
 
 
@@ -232,7 +322,7 @@ def fingerprint(trace):
 
 
 def model_fingerprints(ctx, schedules, n_sh=8):
-    exprs = [f'fingerprint {zlit(s["cap"])} (decode {len(s["acts"])} {encode(s["acts"])})' for s in schedules]
+    exprs = [f'fingerprint {zlit(s["cap"])} (decode {len(s["acts"])} {hex(encode(s["acts"]))})' for s in schedules]   # hex: long schedules are numerals of thousands of digits
     order = sorted(range(len(exprs)), key=lambda k: -len(schedules[k]['acts']))
     perm = [k for r in range(n_sh) for k in order[r::n_sh]]
     vals = coq_eval(ctx, HEADER, [exprs[k] for k in perm], shard=max(1, (len(exprs) + n_sh - 1) // n_sh), label='fp')
@@ -253,11 +343,18 @@ def correspond(ctx):
     fps = model_fingerprints(ctx, schedules)
     differing = [k for k, (fp, r) in enumerate(zip(fps, impl)) if fp != fingerprint(r['trace'])]
     differing.sort(key=lambda k: len(schedules[k]['acts']))
-    full = dict(zip(differing[:30], model_traces(ctx, [schedules[k] for k in differing[:30]])))
+    chosen, tot = [], 0              # full traces of the shortest differing schedules (bounded work: long ones keep 'fingerprint differs')
+    for k in differing[:30]:
+        tot += len(schedules[k]['acts'])
+        if chosen and tot > 3000:
+            break
+        chosen.append(k)
+    full = dict(zip(chosen, model_traces(ctx, [schedules[k] for k in chosen])))
     dis = []
     hist = {}
     n_obs = 0
     nontrivial = set()
+    max_wait = max((len(o[1]) for r in impl for o in r['trace']), default=0)
     for (tag, s), r in zip(tagged, impl):
         hist[tag] = hist.get(tag, 0) + 1
         n_obs += len(r['trace'])
@@ -277,9 +374,10 @@ def correspond(ctx):
                 rule='one evaluation = one schedule run on the real FIFOWeightedSemaphore (DetLoop) and on the Coq model (vm_compute; fingerprint of the whole trace, differing schedules re-evaluated in full), '
                      'all observations (value, queue ids+weights in order, set of holders, order of entry into the bodies) after every Settle compared; '
                      'non-trivial = distinct schedule in which some job actually blocked; '
-                     f'{n_obs} observations compared; exhaustive classes: settled cap3/w123/4 jobs (thorough 5)/7 actions (thorough 9), settled cap2/w12/5 jobs, burst cap3/3 jobs (thorough 4)',
+                     f'{n_obs} observations compared; exhaustive classes: settled cap3/w123/4 jobs (thorough 5)/7 actions (thorough 9), settled cap2/w12/5 jobs, burst cap3/3 jobs (thorough 4); '
+                     f'large populations: up to {max_wait} jobs waiting simultaneously',
                 samples=[{'schedule': s, 'trace': r['trace']} for (_, s), r in list(zip(tagged, impl))[:2] + list(zip(tagged, impl))[-1:]],
-                disagreements=dis, histograms={'schedule_class': hist},
+                disagreements=dis, histograms={'schedule_class': hist, 'max_simultaneous_waiters': max_wait},
                 exhaustive=True, names=['SemFifo.trace~FIFOWeightedSemaphore'])
 
 
